@@ -722,7 +722,9 @@ class ExprMixin:
     def e_GeneratorExp(self, node, env):
         from .symex import Env
         snap = Env(env.module, env, {})
-        return Delayed(lambda: self.comprehension(node, snap, "gen"))
+        d = Delayed(lambda: self.comprehension(node, snap, "gen"))
+        d.node, d.env = node, snap          # for consumers that stop early (all / any)
+        return d
 
     def force(self, d):
         if d.forced is None:
